@@ -62,6 +62,14 @@ func (c *Codec) newHandleKind(gen bool) *Handle {
 	return h
 }
 
+// Pack encodes a token as part of the scenario's given input (a protocol-generated payload):
+// the handle belongs to the pre-state, not to what the call under test marshals.
+func (c *Codec) Pack(t *esdt.ESDigitalToken) []byte {
+	h := c.newHandleKind(true)
+	h.Tok = CloneToken(t)
+	return h.Bytes
+}
+
 // Reset forgets everything Marshal produced (pre-state handles stay).
 func (c *Codec) Reset() {
 	var keep []*Handle
